@@ -303,6 +303,7 @@ func (s *CallStack) Pop() CallFrame {
 	f := s.Frames[len(s.Frames)-1]
 	s.Frames[len(s.Frames)-1] = CallFrame{}
 	s.Frames = s.Frames[:len(s.Frames)-1]
+	verifEv(s, "pop", 0, 0, f.FID, "")
 	return f
 }
 
